@@ -1020,7 +1020,7 @@ int main(int argc, char** argv)
     bool thorough = argc > 2 && std::string(argv[2]) == "thorough";
     int part      = argc > 3 ? atoi(argv[3]) : 0;
     int nparts    = argc > 4 ? atoi(argv[4]) : 1;
-    int depth     = thorough ? 9 : 6;
+    int depth     = thorough ? 9 : 7;
     for (int k = 0; k < 6; k++)
         if (k % nparts == part)
             dispatch(kinds[k], "enumerate", depth, {});
